@@ -209,6 +209,9 @@ let handle (line : string) : string =
       (match M.spec_op (ver = "1") (parse_op t) (get impl_srv) with
        | None -> "none"
        | Some (v, s') -> value_str v ^ " " ^ srv_dump s')
+  | ["spec_caps"] ->
+      (* what CAPABILITY returns against the server the real client talks to (theorem C15_capability) *)
+      "b:" ^ hb (M.capabilities_bytes (get impl_srv))
   | ["parse_cmd"; d] -> presult_str (M.parse_command (bh d))
   | ["select_mech"; v; m] -> ohb (M.select_mech (bh v) (obh m))
   | ["fn"; name; d] -> unit_fn name (bh d)
